@@ -144,7 +144,7 @@ def random_cases(rng: random.Random, n: int, maxsize: int) -> list[dict]:
     out = []
     for _ in range(n):
         size = rng.randint(7, maxsize)
-        span = rng.choice([2, 3, size, 4 * size])
+        span = min(rng.choice([2, 3, size, 4 * size]), INF - 1)     # codes +-99 are reserved for the infinities
         alpha = [-INF, INF] + list(range(-span, span + 1))
         p = [rng.choice(alpha) for _ in range(size)]
         k = rng.random()
